@@ -34,7 +34,12 @@ class RepackMachine(Machine):
         self.top = g.top
 
     def initial(self, g):
-        return [('old', None, 'orig', 'absent', 'volatile', '?')]
+        # a fresh call ... or a call that follows a repack interrupted at any point (crash states of a previous run are entry states
+        # of the next one): the committed index may still designate the temporary pack, which then exists
+        base = ('old', None, 'orig', 'absent', 'volatile', '?')
+        after_crash = [('tmp', None, P, 'flushed', 'durable', '?') for P in ('orig', 'absent', 'linked')]
+        after_crash += [('old', None, 'orig', 'flushed', 'volatile', '?')]  # interrupted while copying: stale temporary pack, index untouched
+        return [base] + after_crash
 
     def _tmp(self, pk):
         return is_tmp_pack(self.K, pk, self.prog)
@@ -52,6 +57,19 @@ class RepackMachine(Machine):
         e = expr
         if isinstance(e, ast.UnaryOp) and isinstance(e.op, ast.Not):
             neg, e = True, e.operand
+        # `<temporary pack path>.exists()`: only feasible when it agrees with the abstract state of the temporary pack
+        if isinstance(e, ast.Call) and isinstance(e.func, ast.Attribute) and e.func.attr in ('exists', 'is_file') and fr is self.top:
+            try:
+                pk = self.K.kind(e.func.value, fr)
+            except Exception:
+                pk = None
+            if pk is not None and pk[0] in ('path', 'join') and in_area(self.K, pk, 'packs') and self._tmp(pk):
+                exists = pol != neg
+                if exists and st[3] == 'absent':
+                    return None
+                if not exists and st[3] != 'absent':
+                    return None
+                return st
         if isinstance(e, ast.Name) and fr is self.top:
             v = last_assignment(e.id, fr.fn, getattr(expr, 'lineno', 10 ** 9))
             if v is not None and 'pack_id ==' in ast.unparse(v).replace('Obj.', '') and ('execute' in ast.unparse(v) or 'scalar' in ast.unparse(v)) \
